@@ -22,6 +22,8 @@ DUAL == IOEnv.DUAL = "1"
 Rec2 == ndJsonDeserialize(IOEnv.TRACE2)
 NSLOT == 8
 
+K6 == INSTANCE Kernels WITH K <- 6      \* only the constant tables (as bit sets) are used at K = 6
+
 VARIABLES l, slots, it, poisoned, nchk, nviol, nskip,
           pcache,     \* [n, maps]: index maps of all input permutations of the size last canonized
           bstart      \* line of the last rand_begin: the draws of a batch are read back from the trace itself
@@ -165,7 +167,7 @@ CanonVerdict(e) ==
       \* result must lie in the orbit (certificate) - minimality then follows from the walk
       \* theorem (mc/MC_Canon) for the loop code checked exactly at the smaller sizes
       IF e.walk = <<>> THEN Assert(FALSE, <<"no walk recorded", l>>)
-      ELSE IF Less(A.on, res.on) THEN Bad("result larger than the input")
+      ELSE IF ~e.le_in THEN Bad("result larger than the input")     \* in the library's own ordering
       ELSE Good(Sx, it))
 
 -----------------------------------------------------------------------------
@@ -368,8 +370,23 @@ RandEndVerdict(e) ==
   IF MODE # "C19" THEN Setup(slots, it)
   ELSE IF RandEndOK(e) THEN Good(slots, it) ELSE Bad("degenerate random batch")
 
+-----------------------------------------------------------------------------
+(* The literal constant tables of operations.rs (through the `constants` hook) are the K = 6     *)
+(* instances of the comprehension definitions of Kernels.tla                                     *)
+ConstsOK(e) ==
+  /\ Len(e.r.var_mask) = 6 /\ \A i \in 0..5 : ToSet(e.r.var_mask[i + 1]) = K6!VarMaskBits(i)
+  /\ Len(e.r.num_vars_mask) = 7 /\ \A n \in 0..6 : ToSet(e.r.num_vars_mask[n + 1]) = K6!NumVarsMaskBits(n)
+  /\ Len(e.r.count_masks) = 7 /\ \A c \in 0..6 : ToSet(e.r.count_masks[c + 1]) = K6!CountMaskBits(c)
+  /\ Len(e.r.swap_input_masks) = 6
+  /\ \A i \in 0..5 : Len(e.r.swap_input_masks[i + 1]) = 6
+       /\ \A j \in 0..5 : ToSet(e.r.swap_input_masks[i + 1][j + 1]) = K6!SwapMaskBits(i, j)
+ConstsVerdict(e) ==
+  IF MODE \notin {"C01", "C03", "C06", "C11"} THEN Setup(slots, it)
+  ELSE IF e.out = "ok" /\ ConstsOK(e) THEN Good(slots, it) ELSE Bad("constant table differs")
+
 Verdict(e) ==
   IF e.out = "skip" THEN Poison
+  ELSE IF e.op = "consts" THEN ConstsVerdict(e)
   ELSE IF e.op = "rand_begin" THEN Setup(slots, it)
   ELSE IF e.op = "rand_end" THEN RandEndVerdict(e)
   ELSE IF e.op = "random" THEN RandomVerdict(e)
